@@ -47,7 +47,7 @@ def elem_runs(lists, allocs, tier, depth, **kw):
         for a in allocs:
             arenas = (0,) if a == "AE" else (0, 1)
             for ar in arenas:
-                runs.append(R(l, a, "elem", nmax=2, cmax=2, bmax=4, depth=depth, junk=1, arena1=ar, fixed="2", **kw))
+                runs.append(R(l, a, "elem", nmax=3, cmax=3, bmax=6, depth=depth, junk=1, arena1=ar, fixed="2", **kw))
     return runs
 
 
@@ -113,10 +113,16 @@ def spec(prop, tier):
         return hist_runs(ALL_LISTS, tier, allocs=("AE", "NP"), mode="c10", nmax=4, cmax=3, bmax=6, depth=4)
     if prop == "C11":
         pl = ["P1", "P3", "P4", "F1", "F3", "F4", "F5", "V1", "V3", "M2"]
-        return [R(l, "AE", "proxy", nmax=3 if q else 4, cmax=1, bmax=4, depth=3 if q else 4, junk=1, fixed="2") for l in pl]
+        runs = [R(l, "AE", "proxy", nmax=3 if q else 4, cmax=1, bmax=4, depth=3 if q else 4, junk=1, fixed="2") for l in pl]
+        # long runs of trivially assignable/swappable fields: byte extents 8, 16, 32, 64 (and 15, 33 for F5's byte spans)
+        # hit the block sizes a byte-swap or memmove implementation may special-case
+        for fixed in ("6", "14", "30") + (() if q else ("7", "15", "31", "62")):
+            for l in ("F1", "F3", "F5"):
+                runs.append(R(l, "AE", "proxy", nmax=2, cmax=1, bmax=4, depth=2 if q else 3, junk=1, fixed=fixed))
+        return runs
     if prop == "C12":
         if q:
-            return elem_runs(["F3", "V1", "V3"], ["AE", "NP"], tier, 4) + elem_runs(["F1", "F4", "V5", "M2", "M3"], ["AE", "NP"], tier, 3)
+            return elem_runs(["F3", "V1", "V3"], ["AE", "NP"], tier, 3) + elem_runs(["F1", "F4", "V5", "M2", "M3"], ["AE", "NP"], tier, 2)
         return elem_runs(["F1", "F3", "F4", "V1", "V3", "V5", "M2", "M3"], ["AE", "NP", "PP"], tier, 4)
     if prop == "C17":
         lists = ["F1", "F3", "V1", "V3"]
@@ -160,7 +166,8 @@ def engine_argv(binpath, r, prop, outfile, workers, deadline):
 
 
 def run_key(r):
-    return "%s_%s_%s_j%d_b%d_a%d_f%d" % (r["list"], r["alloc"], r["mode"], r["junk"], r["base"], r["arena1"], r["faults"])
+    return "%s_%s_%s_j%d_b%d_a%d_f%d%s" % (r["list"], r["alloc"], r["mode"], r["junk"], r["base"], r["arena1"], r["faults"],
+                                            ("_x" + r["fixed"].replace(",", ".")) if r["fixed"] else "")
 
 
 def collect(prop, tier, runs, t0, deadline_s):
